@@ -29,10 +29,12 @@ RECURSIVE FirstIn(_, _, _)
 FirstIn(t, S, i) == IF i > Len(t) THEN i ELSE IF t[i] \in S THEN i ELSE FirstIn(t, S, i + 1)
 
 \* split at byte c: <<"a", "", "b">> for "a..b"; the empty text gives <<"">>
-RECURSIVE SplitOn(_, _)
-SplitOn(t, c) == LET i == FirstIn(t, {c}, 1) IN
-                 IF i > Len(t) THEN <<t>>
-                 ELSE <<SubSeq(t, 1, i - 1)>> \o SplitOn(SubSeq(t, i + 1, Len(t)), c)
+\* (index based, so that long inputs cost time linear in their length plus the number of pieces squared)
+RECURSIVE SplitFrom(_, _, _)
+SplitFrom(t, c, start) == LET i == FirstIn(t, {c}, start) IN
+                          IF i > Len(t) THEN <<SubSeq(t, start, Len(t))>>
+                          ELSE <<SubSeq(t, start, i - 1)>> \o SplitFrom(t, c, i + 1)
+SplitOn(t, c) == SplitFrom(t, c, 1)
 
 IsPre(t)   == LET ids == SplitOn(t, Dot) IN \A i \in 1..Len(ids) : IsPreIdent(ids[i])
 IsBuild(t) == LET ids == SplitOn(t, Dot) IN \A i \in 1..Len(ids) : IsBuildIdent(ids[i])
